@@ -258,6 +258,9 @@ private:
             if( current_byte & 0x80 ) // run length chunk (high bit = 1)
             {
                 uint8_t chunk_length = current_byte - 127;
+                io_error_if( pixel + chunk_length * bytes_per_pixel > image_size
+                           , "Mangled TARGA file: run length packet exceeds the image."
+                           );
                 uint8_t pixel_data[4];
                 for( size_t channel = 0; channel < bytes_per_pixel; ++channel )
                 {
@@ -276,6 +279,9 @@ private:
 
                 // Write the next chunk_length pixels directly
                 size_t pixels_written = chunk_length * bytes_per_pixel;
+                io_error_if( pixel + pixels_written > image_size
+                           , "Mangled TARGA file: raw packet exceeds the image."
+                           );
                 this->_io_dev.read( &image_data[pixel], pixels_written );
                 pixel += pixels_written;
             }
